@@ -10,7 +10,7 @@ open Proto Agg AggProto
 
 def runReq (r : Req) : Option String := do
   let sc ← parseScenario r
-  let E := mkEnv sc.k sc.ents
+  let E := mkEnvK sc.k sc.ks sc.ents
   let (_, out) := runFrom E (Agg.init sc.n sc.gen) sc.evs
   pure (String.intercalate ";" out)
 
